@@ -662,6 +662,13 @@ class C03(RexDriver):
         'calls; every subset any seed could select is enumerated; the order '
         'of the returned sample is canonical (thorough: also reversed)',
         'thorough repeats only the quick layers under hash seeds 1 and 2',
+        'every case (and every history) starts from the pristine module '
+        'state found by introspection (module globals, class attributes, '
+        'mutable default arguments), restored in place',
+        'histories: depth <= 2 (3 for the four extra-letter settings), menus '
+        'of 3 two-string sets; a last-call result that differs from the '
+        'fresh-state result but still satisfies the property is counted as '
+        'unspecified here (state independence is C14\'s statement)',
         'trusted base: python re as the meaning of an expression',
     ]
 
